@@ -43,7 +43,7 @@ func c05Families(c *core.Ctx) {
 		}
 	}
 	for _, mb := range ms {
-		runMember(c, mb, rules, 64, func(w *fam.World, fm *fam.FileModel) []fam.Issue {
+		runMember(c, mb, rules, 256, func(w *fam.World, fm *fam.FileModel) []fam.Issue {
 			return w.CheckObject(fm, w.Spec, "", "root")
 		})
 	}
